@@ -220,7 +220,12 @@ def run_shard(acc, prop, tier, seed, shard, nshards, **kw):
     finally:
         srv.close()
     nw, steps = (10, (140, 220)) if tier == "quick" else (260, (140, 300))
-    run_worlds(acc, PROP, tier, seed, shard, nshards, factory, WEIGHTS, nw, steps, pre_hook=pre_hook)
+    def exotic_probe(world, gen_):
+        from .. import exotic
+        exotic.probe(world, gen_, acc, "C12")
+        return []
+    run_worlds(acc, PROP, tier, seed, shard, nshards, factory, WEIGHTS, nw, steps, pre_hook=pre_hook,
+               post_hook=exotic_probe, post_every=2 if tier == "quick" else 3)
     # canary for the forward monitor (on a monitor without the query side effects)
     run_worlds(acc, PROP + "canary", tier, seed, shard, 1, factory_canary, WEIGHTS, 1, (80, 80), corruptions=CORR)
 
@@ -234,6 +239,7 @@ def floors(acc, tier):
     _w.need(acc, msgs, "rev_sys_ok", 1000)
     _w.need(acc, msgs, "router_fwd_compared", 800)
     _w.need(acc, msgs, "router_rev_compared", 300)
+    _w.need(acc, msgs, "exotic_swaps_ok", 100)
     for pk in ("nn", "nt", "tn", "tt"):
         for d in ("dir0", "dir1"):
             if not any(k.startswith("fwd|%s|" % pk) and ("|%s|ok|" % d) in k for k in acc.classes):
